@@ -210,8 +210,37 @@ func (w *world) modelEval(n *adoc.Node, e xast.Expr) (refeval.Value, error) {
 // reports a violation of class `class` on disagreement and returns the
 // library value (nil when the library failed).
 func (w *world) check(r *evid.Run, class string, caseIdx int, n *adoc.Node, e xast.Expr, signZero bool, extra ...xsel.ContextApply) (refeval.Value, bool) {
+	return w.checkStr(r, class, caseIdx, n, e, spell(e), signZero, extra...)
+}
+
+// spell renders e minimally, except that one expression in five (chosen by a
+// hash of its minimal spelling, so that the same expression is always spelled
+// the same way) gets ExprWhitespace — blanks, tabs, CR, LF — at token
+// boundaries, which XPath 1.0 section 3.7 allows everywhere between tokens.
+func spell(e xast.Expr) string {
 	s := xast.String(e)
-	return w.checkStr(r, class, caseIdx, n, e, s, signZero, extra...)
+	h := fnv.New32a()
+	h.Write([]byte(s))
+	st := h.Sum32()
+	if st%5 != 0 {
+		return s
+	}
+	return xast.Render(e, xast.RenderOpts{WS: func(slot int) string {
+		st = st*1664525 + 1013904223
+		switch (st >> 16) % 12 {
+		case 0:
+			return " "
+		case 1:
+			return "\t"
+		case 2:
+			return "\n"
+		case 3:
+			return "\r\n"
+		case 4:
+			return " \n\t"
+		}
+		return ""
+	}})
 }
 
 func (w *world) checkStr(r *evid.Run, class string, caseIdx int, n *adoc.Node, e xast.Expr, s string, signZero bool, extra ...xsel.ContextApply) (refeval.Value, bool) {
